@@ -25,12 +25,19 @@ def _sat(f):
 # ------------------------------------------------------------------ C05.1
 def c05_1(ctx):
     f = ctx.func(SOLVER, "Solver.sign")
-    ws = [w for w in writes_in(f) if not w.fresh]
-    allowed = ("self.tx.txs_in[tx_in_idx].script = ...",)
-    for w in ws:
-        ctx.check(w.text in allowed, "sign-write:%s" % w.text, ctx.where(f, w.node),
-                  "Solver.sign writes `%s`; signing may change only the unlocking script and the witness of the input being signed" % w.text, what="write:%s" % w.text, sample={"write": w.text})
+    for w in [w for w in writes_in(f) if not w.fresh and w.kind == "mutator"]:
+        ctx.bad("sign-write:%s" % w.text, ctx.where(f, w.node), "Solver.sign writes `%s`; signing may change only the unlocking script and the witness of the input being signed" % w.text, sample={"write": w.text})
     w = sym.walk(ctx, f)
+    # stores, read on the symbolic store (aliases of self.tx resolved): only <tx>.txs_in[<loop index>].script
+    for e in w.effects:
+        if e.kind in ("setattr", "setitem", "aug", "augattr", "augitem", "delitem", "delattr"):
+            tgt = norm(e.target)
+            if e.kind == "aug" and isinstance(e.target, ast.Name):
+                continue
+            ok = e.kind == "setattr" and e.attr == "script" and bool(e.loops) and tgt == "self.tx.txs_in[%s]" % e.loops[-1].target
+            txt = e.text().split(" = ")[0]
+            ctx.check(ok, "sign-write:%s" % txt, ctx.where(f, e.node),
+                      "Solver.sign writes `%s`; signing may change only the unlocking script and the witness of the input being signed" % txt, what="write:%s" % txt, sample={"write": txt})
     idxs = [l.target for e in w.effects for l in e.loops]
     sw = sym.calls_matching(w, "self.tx.set_witness")
     if not sw:
@@ -120,7 +127,11 @@ def c05_2(ctx):
         low = (not same) and ("%s.order()" % gen) in sv and sv.replace("%s.order()" % gen, "").replace(sign_s, "").strip(" -+()") == ""
         ops = gi.f_opaques(e.reach) if e.reach not in (True, False) else []
         hi = [o for o in ops if ("%s.order()" % gen) in o and sign_s in o and " < " in o]
-        ok = (low or same) and bool(hi)
+        if not (low or same):
+            raise Undecided("the encoded s `%s` is neither the s of generator.sign(...) nor order - s; this rule does not read how it is lowered" % sv[:80])
+        if hi and hi[0] not in ("%s.order() - 2 * %s < 0" % (gen, sign_s), "2 * %s - %s.order() < 1" % (sign_s, gen)):
+            raise Undecided("s is compared with the order as `%s`, a form this rule does not read" % hi[0][:80])
+        ok = bool(hi)
         if ok:
             # the guard atom after normalisation: `order - 2*s < 0` (s above half the order) or `2*s - order < 1` (s at most half)
             o_ = "%s.order()" % gen
@@ -196,22 +207,25 @@ def c05_4(ctx):
 # ------------------------------------------------------------------ C05.5
 def c05_5(ctx):
     f = ctx.func(SOLVER, "Solver.solve_for_constraints")
-    sorts = [c for c in df.calls_in(f.node) if isinstance(c.func, ast.Name) and c.func.id == "sorted"]
+    # every ordering site of the function and of its closures: sorted(...) and <list>.sort(...)
+    sorts = [c for c in ast.walk(f.node) if isinstance(c, ast.Call) and ((isinstance(c.func, ast.Name) and c.func.id == "sorted") or (isinstance(c.func, ast.Attribute) and c.func.attr == "sort"))]
+    nested = {n.name: n for n in ast.walk(f.node) if isinstance(n, ast.FunctionDef) and n is not f.node}
     for c in sorts:
         kw = {k.arg: k.value for k in c.keywords}
         key = kw.get("key")
         good = False
         if key is not None:
             if isinstance(key, ast.Name):
-                inner = ctx.p.functions.get("%s.%s" % (f.qualname, key.id))
-                body = norm(inner.node.body[-1]) if inner is not None else ""
+                inner = nested.get(key.id)
+                body = norm(inner.body[-1]) if inner is not None else ""
                 good = "int(" in body and ".name" in body
             elif isinstance(key, ast.Lambda):
                 good = "int(" in norm(key.body) and ".name" in norm(key.body)
         ctx.check(good, "numeric-placeholder-order", ctx.where(f, c),
                   "solved placeholders are ordered by `%s`; their names are x_0, x_1, ... x_10: ordering them as strings puts x_10 before x_2, so unlocking stacks with more than ten items (15-of-15 multisig) come out permuted"
                   % (norm(key) if key is not None else "their string names"), sample={"sort": norm(c)[:120]})
-    ctx.check(len(sorts) >= 2, "two-stacks", ctx.where(f), "solve_for_constraints does not order the script stack and the witness stack")
+    if not sorts:
+        raise Undecided("solve_for_constraints: no ordering site (sorted / .sort) found; this rule does not read how the stacks are ordered")
     _refcheck(ctx, SOLVER, "Solver.solve_for_constraints", "sv_solve_for_constraints", "stack-order")
     _refcheck(ctx, SOLVER, "DynamicStack._fill", "ds_fill", "placeholder-naming")
 
